@@ -3,29 +3,32 @@ from . import core, layers_common as L
 
 PROP = "C11"
 DRIVER = "drv_layers"
-LEAN_MODULES = ["MesaModel.Props.C11", "MesaModel.Props.C18Layers"]
+LEAN_MODULES = ["MesaModel.Props.C11", "MesaModel.Props.C11Ball", "MesaModel.Props.C18Layers"]
 _T = [
-    "C11_reach_iff_history", "C11_two_views_one_value", "C11_cell_write_read_through_layer",
-    "C11_layer_write_read_through_cell", "C11_value_changes_only_by_writes", "C11_read_after_write_persists",
-    "C11_set_cells_pointwise", "C11_modify_cells_pointwise",
+    "C11_reach_iff_history", "C11_layers_never_share_an_array", "C11_descriptors_are_the_layer_dict", "C11_two_views_one_value", "C11_cell_write_read_through_layer",
+    "C11_layer_write_read_through_cell", "C11_write_frame_by_array", "C11_rebound_layers_are_one_value",
+    "C11_single_cell_write_accepted_iff", "C11_value_changes_only_by_writes", "C11_read_after_write_persists",
+    "C11_set_cells_pointwise", "C11_modify_cells_pointwise", "C11_attached_layers_have_entries",
     "C11_set_in_place_modify_repoints", "C11_modify_cell_pointwise", "C11_write_through_live_reference",
     "C11_create_default", "C11_detach_keeps_values",
-    "C11_attach_exposes_layer", "C11_empty_view_is_emptiness", "C11_empties_readout_agrees",
+    "C11_attach_exposes_layer", "C11_empty_view_is_emptiness", "C11_empties_readout_agrees", "C11_empty_view_wrong_at_most_where_written",
+    "C11_unsafe_write_is_the_only_way",
     "C11_cells_exact", "C11_select_exact", "C11_select_filters_only", "C11_select_one_extreme",
     "C11_select_list_is_mask", "C11_only_empty_is_actual_emptiness",
     "C11_reserved_names_are_cell_class_attributes", "C11_cell_protocol_names_reserved",
     "C11_builtin_empty_is_created_layer", "C11_layer_never_shadows_cell_attribute",
     "C11_assignment_cast_value", "C11_typed_cell_write_one_value", "C11_typed_layer_write_one_value",
-    "C11_set_cells_typed", "C11_modify_promotes_dtype", "C11_ufunc_result_types", "C11_modify_ufunc_typed",
+    "C11_set_cells_typed", "C11_modify_promotes_dtype", "C11_ufunc_result_types", "C11_modify_ufunc_typed", "C11_ufunc_mul_exact",
     "C11_dtype_changes_only_by_modify", "C11_modify_cell_typed", "C11_from_data_copies",
-    "C11_within_radius_symmetric", "C11_neighborhood_mask_exact", "C11_select_within_saved_mask",
+    "C11_within_radius_symmetric", "C11_neighborhood_mask_exact", "C11_neighborhood_mask_is_hop_closure_partial",
+    "C11_select_within_saved_mask",
     "C11_shared_layer_second_grid", "C11_set_cells_array_pointwise",
     "C11_create_typed_default", "C11_new_layer_typed_default",
     "C11_layer_select_exact", "C11_layer_select_reads_cell_values", "C11_aggregate_exact",
     "C11_cast_rules_match_numpy", "C11_ufunc_types_match_numpy", "C11_cast_values_match_numpy",
     "C11_grid_attribute_is_layer", "C11_grid_attribute_assignment_refused", "C11_grid_attribute_never_replaces_layer",
     "C18_layers_add_reject_unchanged", "C18_layers_create_reject_unchanged", "C18_layers_add_rejects_exactly",
-    "C18_layers_step_reject_unchanged", "C18_layers_rejected_calls_invisible",
+    "C18_layers_step_reject_unchanged", "C18_layers_rebind_reject_unchanged", "C18_layers_rejected_calls_invisible",
 ]
 THEOREMS = ["Mesa.Layers." + t for t in _T]
 COUNTS = {"quick": 6000, "thorough": 150000}
@@ -58,10 +61,13 @@ TRUSTED = [
 ]
 ASSUMPTIONS = [
     "protocol preconditions answered by the harness without calling mesa (mirrored by the model): placing a placed agent, "
-    "moving/removing an unplaced one, entering a full cell (half-done moves are C06/C08/C18 material of other model groups), "
+    "moving/removing an unplaced one, entering an occupied SingleGrid cell by move_agent (half-done moves are C06/C08/C18 "
+    "material of other model groups; on a cell space the call is made and the cell's own refusal observed), "
     "cell-attribute access to names of the Cell class, unknown ids",
-    "the emptiness theorems and the oracle's emptiness clause assume the *user* does not overwrite, re-point, alias or "
-    "remove the built-in `empty` layer (Op.safe); such histories are still generated and compared with the model",
+    "the emptiness theorems and the oracle's emptiness clause assume the *user* does not overwrite, re-point or remove the "
+    "built-in `empty` layer / write through a reference that aliases the emptiness array (safeHist: judged in the state each "
+    "op is issued in; taking such a reference — grid.empty.data, legacy grid.empty_mask — and reading through it is allowed); "
+    "unsafe histories are still generated and compared with the model",
     "values: Python bools, small ints and multiples of 1/4 of any type into layers of any dtype (numpy casts them; the "
     "model says how); untyped operands of modify_cells are of the layer's own dtype (logical ops on bool layers, "
     "arithmetic on numeric layers), typed operands of any type with + - * max min and or xor (* only with integral "
@@ -74,8 +80,8 @@ ASSUMPTIONS = [
     "the attribute path (HasPropertyLayers.__getattr__)",
 ]
 RULE = ("random scenarios over the three grid families (new cell spaces: Moore/VonNeumann/Hex, 1-3 dimensions, sizes 1-4, "
-        "capacity None/1/2, torus or not; legacy SingleGrid/MultiGrid up to 4x4): 1-3 initial layers of dtype bool/int/float, "
-        "then 8-35 ops from {create / free-standing layer (well- or mis-shaped) / attach / detach, single-cell writes and "
+        "capacity None/0/1/2, torus or not; legacy SingleGrid/MultiGrid up to 4x4): 1-3 initial layers of dtype bool/int/float, "
+        "then 8-35 ops from {create / free-standing layer (well- or mis-shaped, one in ten with a zero dimension and then a burst of bulk ops / reads on it: np.vectorize refuses conditions and Python functions there) / attach / detach, single-cell writes and "
         "reads through the layer and through the cell attribute, set_cells and modify_cells with and without condition, "
         "ufunc and Python-function operations, ~30% of all written values and modify operands being Python scalars of an "
         "arbitrary type (bool / int / float incl. non-integral floats: casts, refused casts, dtype promotion), dtype "
@@ -247,6 +253,18 @@ def generate_rejecting(rng, tier, count):
 
 
 gen_tables = L.gen_tables
+
+
+def extra(ctx):
+    """says in the evidence where the reserved-name table came from: when the AST extractor does not recognise the shape of
+    `class Cell` it falls back to the probe (so that a harmless refactoring raises no alarm) and
+    C11_reserved_names_are_cell_class_attributes then compares the probe with itself"""
+    if L.TABLES_FROM == "unknown":
+        L.gen_tables()
+    ctx.cov["reserved_table_source"] = L.TABLES_FROM
+    if L.TABLES_FROM != "ast":
+        ctx.notes.append("reserved-name table taken from the probe (" + L.TABLES_FROM + "): "
+                         "C11_reserved_names_are_cell_class_attributes is circular in this run")
 run_impl = L.run_impl
 oracle = L.oracle
 tags = L.tags
